@@ -808,3 +808,58 @@ Proof. intros R. apply greach_reach, reach_inv in R. rewrite gstep_mstep. now ap
 
 Lemma g_internal_runs_bounded n s ls s' : greach n s -> all_internal ls -> grun s ls = Some s' -> length ls + mu s' <= mu s.
 Proof. intros R A H. apply greach_reach, reach_inv in R. rewrite grun_mrun in H. eapply internal_runs_bounded; eauto. Qed.
+
+(* the runner's boolean test `quiescent` (printed as stuck=1 at every observation Q) is exactly gstuck *)
+Lemma existsb_seq_false f n : existsb f (seq 0 n) = false <-> forall i, i < n -> f i = false.
+Proof.
+  split.
+  - intros H i Hi. destruct (f i) eqn:E; auto.
+    assert (existsb f (seq 0 n) = true) by (apply existsb_exists; exists i; split; auto; apply in_seq; lia). congruence.
+  - intros H. destruct (existsb f (seq 0 n)) eqn:E; auto.
+    apply existsb_exists in E as (i & Hi & Fi). apply in_seq in Hi. rewrite H in Fi by lia. discriminate.
+Qed.
+
+Lemma step_out_of_range s l i : length (thr s) <= i ->
+  (l = LTau i \/ l = LRet i \/ exists d, l = LTake i d) -> gstep s l = None.
+Proof.
+  intros Hi Hl. assert (E : nth_error (thr s) i = None) by (apply nth_error_None; exact Hi).
+  destruct Hl as [->|[->|[d ->]]]; unfold gstep, step; rewrite E; reflexivity.
+Qed.
+
+(* the take statement is enabled for one member of the set iff for every member *)
+Lemma take_any s i d d' s1 : gstep s (LTake i d) = Some s1 -> In d' (changed s) -> exists s2, gstep s (LTake i d') = Some s2.
+Proof.
+  unfold gstep, step. destruct (nth_error (thr s) i) as [[| |ip w r]|]; try discriminate.
+  unfold exec_g. destruct w; try discriminate.
+  destruct gen_is_model as [_ ->]. unfold model_fetch.
+  destruct ip as [|[|[|[|ip]]]]; cbn [nth_error]; try discriminate; try (destruct ip; discriminate).
+  destruct (mem d (changed s)); [|discriminate]. intros _ H. apply mem_In in H. rewrite H. eauto.
+Qed.
+
+Lemma take_member s i d s1 : gstep s (LTake i d) = Some s1 -> In d (changed s).
+Proof.
+  unfold gstep, step. destruct (nth_error (thr s) i) as [[| |ip w r]|]; try discriminate.
+  unfold exec_g. destruct w; try discriminate.
+  destruct gen_is_model as [_ ->]. unfold model_fetch.
+  destruct ip as [|[|[|[|ip]]]]; cbn [nth_error]; try discriminate; try (destruct ip; discriminate).
+  destruct (mem d (changed s)) eqn:M; [|discriminate]. intros _. now apply mem_In.
+Qed.
+
+Theorem quiescent_gstuck s : quiescent s = true <-> gstuck s.
+Proof.
+  unfold quiescent. rewrite negb_true_iff, existsb_seq_false. split.
+  - intros H l Hl. destruct l as [i d|i|i|i d|i]; try discriminate.
+    + destruct (Nat.lt_ge_cases i (length (thr s))) as [Hi|Hi]; [|apply step_out_of_range with i; auto].
+      specialize (H i Hi). unfold enabled_thread in H. destruct (gstep s (LTau i)); [discriminate|reflexivity].
+    + destruct (Nat.lt_ge_cases i (length (thr s))) as [Hi|Hi]; [|apply step_out_of_range with i; eauto].
+      specialize (H i Hi). unfold enabled_thread in H.
+      destruct (gstep s (LTake i d)) as [s1|] eqn:E; auto. exfalso.
+      destruct (gstep s (LTau i)); [discriminate|]. destruct (gstep s (LRet i)); [discriminate|].
+      pose proof (take_member _ _ _ _ E) as M. destruct (changed s) as [|c cs] eqn:C; [destruct M|].
+      destruct (take_any s i d c s1 E ltac:(rewrite C; now left)) as [s2 E2]. rewrite E2 in H. discriminate.
+    + destruct (Nat.lt_ge_cases i (length (thr s))) as [Hi|Hi]; [|apply step_out_of_range with i; auto].
+      specialize (H i Hi). unfold enabled_thread in H.
+      destruct (gstep s (LTau i)); [discriminate|]. destruct (gstep s (LRet i)); [discriminate|reflexivity].
+  - intros G i Hi. unfold enabled_thread.
+    rewrite (G (LTau i) eq_refl), (G (LRet i) eq_refl). destruct (changed s); auto. rewrite (G (LTake i d) eq_refl). reflexivity.
+Qed.
